@@ -18,10 +18,13 @@ func init() {
 	register(&Check{
 		ID:  "C25",
 		Run: runC25,
-		Explanation: "Decides the placement and shape of the password gate: (R1) in setupEncryptionKey every success return and the tail call handlePermissions is reached only through the true result of validateOwnerPassword or validateUserPassword (must-pass-through on the bool results' true edges), the !ok branch after the user-password check returns ErrWrongPassword, and in each of the six validate*Password* siblings every return whose ok result can be true is either the result of a hash comparison (passwordHashEqual / passwordHashPrefixEqual / bytes.Equal / subtle.ConstantTimeCompare / another validator) or a constant true dominated by the true edge of such a comparison; (R2) needsOwnerAndUserPassword compares the command against exactly {CHANGEOPW, CHANGEUPW, SETPERMISSIONS} — the three modes whose write path (updateEncryption) re-derives /U from ctx.UserPW and /O from ctx.OwnerPW, so both must have been authenticated — the !ok(owner) && needs(cmd) branch returns an error wrapping ErrOwnerPasswordRequired, and the owner-only success return is confined to the !needs(cmd) edge; (R3) in updateEncryption the new passwords are installed (ctx.UserPW = *UserPWNew, ctx.OwnerPW = *OwnerPWNew, or the New pointer is nil) on every path before any of o(ctx), u(ctx), calcOAndU(ctx) derives key material from them; ctx.EncKey is assigned only inside the validators/key-setup functions of pkg/pdfcpu (who-may-write); checkForEncryption (→ setupEncryptionKey) precedes dereferencing in the read path. NOT decided: hash/key-derivation mathematics (C24), behaviour over change histories beyond the ordering clause R3.",
+		Explanation: "Decides the placement and shape of the password gate: (R1) in setupEncryptionKey every success return and the tail call handlePermissions is reached only through the true result of validateOwnerPassword or validateUserPassword (must-pass-through on the bool results' true edges), the !ok branch after the user-password check returns ErrWrongPassword, and in each of the six validate*Password* siblings every return whose ok result can be true is either the result of a hash comparison (passwordHashEqual / passwordHashPrefixEqual / bytes.Equal / subtle.ConstantTimeCompare / another validator) or a constant true dominated by the true edge of such a comparison; (R2) needsOwnerAndUserPassword compares the command against exactly {CHANGEOPW, CHANGEUPW, SETPERMISSIONS} — the three modes whose write path (updateEncryption) re-derives /U from ctx.UserPW and /O from ctx.OwnerPW, so both must have been authenticated — the !ok(owner) && needs(cmd) branch returns an error wrapping ErrOwnerPasswordRequired, and the owner-only success return is confined to the !needs(cmd) edge; (R3) in updateEncryption the new passwords are installed (ctx.UserPW = *UserPWNew, ctx.OwnerPW = *OwnerPWNew, or the New pointer is nil) on every path before any of o(ctx), u(ctx), calcOAndU(ctx) derives key material from them; ctx.EncKey is assigned only inside the validators/key-setup functions of pkg/pdfcpu (who-may-write); checkForEncryption (→ setupEncryptionKey) precedes dereferencing in the read path. (R4) the AES-256 owner validators return false for an empty candidate (len(ctx.OwnerPW) == 0) before any hash is computed; (R5) o() and validateOwnerPassword() hand values from the same context fields to key(): a fallback (empty owner password → user password) applied on one side only makes the stored /O authenticate another password than the one that was set; (R6) no error result is discarded in pkg/pdfcpu/crypto.go (password preparation and key derivation report unusable input through errors; hash.Hash.Write is exempt). NOT decided: hash/key-derivation mathematics (C24), behaviour over change histories beyond the ordering clause R3.",
 		Rules: []string{
 			"C25.R1 MPT: authentication gate and shape of the validators",
 			"C25.R2 TABLE+MPT: modes that require both passwords; owner-required error",
+			"C25.R4 shape: AES-256 owner validators refuse an empty candidate",
+			"C25.R5 siblings: o() and validateOwnerPassword() derive the /O key from the same fields",
+			"C25.R6 error discipline: no discarded error in crypto.go",
 			"C25.R3 MPT: new passwords installed before O/U derivation; EncKey writers",
 		},
 		Assumptions: []string{"the hash comparison helpers compare what they are given (value semantics not decided)"},
@@ -31,10 +34,12 @@ func init() {
 	register(&Check{
 		ID:  "C26",
 		Run: runC26,
-		Explanation: "Decides the shape of the permission gate: (R1) the user-password-only success path of setupEncryptionKey returns through handlePermissions; in handlePermissions every success return is preceded by the true edge of hasNeededPermissions(ctx.Cmd, ctx.E) except on the edge where both passwords are empty; (R2) hasNeededPermissions returns false when a non-zero mask has no bit in P, for both maskExtract and maskModify, called with the same mode and with enc.R; each mask function reads the perm table entry for its mode argument, returns 0 only when the entry is absent or its extract/modify field is 0, and chooses between its two layouts by a revision test that is true for revisions 3,4,5,6 and false for revision 2 (evaluated on the comparison's constant and operator; a '>3' or '>=4' boundary is rejected); the two layout constants are non-zero, single-bit and different, and extract/modify masks of one layout differ; (R3) every pkg/api function that assigns a constant command mode to conf.Cmd and then hands conf to a reader does the assignment on every path before the read (an assignment moved inside `if conf == nil {…}` leaves a caller-supplied configuration with a stale mode, so the permission check runs for the wrong command). Extracted constants are recorded in evidence. NOT decided: which commands ought to need which right (the property defers to pdfcpu's table).",
+		Explanation: "Decides the shape of the permission gate: (R1) the user-password-only success path of setupEncryptionKey returns through handlePermissions; in handlePermissions every success return is preceded by the true edge of hasNeededPermissions(ctx.Cmd, ctx.E) except on the edge where both passwords are empty; (R2) hasNeededPermissions returns false when a non-zero mask has no bit in P, for both maskExtract and maskModify, called with the same mode and with enc.R; each mask function reads the perm table entry for its mode argument, returns 0 only when the entry is absent or its extract/modify field is 0, and chooses between its two layouts by a revision test that is true for revisions 3,4,5,6 and false for revision 2 (evaluated on the comparison's constant and operator; a '>3' or '>=4' boundary is rejected); the two layout constants are non-zero, single-bit and different, and extract/modify masks of one layout differ; (R3) every pkg/api function that assigns a constant command mode to conf.Cmd and then hands conf to a reader does the assignment on every path before the read (an assignment moved inside `if conf == nil {…}` leaves a caller-supplied configuration with a stale mode, so the permission check runs for the wrong command). Extracted constants are recorded in evidence. (R4) the command mode under which the document is read is the one the operation was dispatched for: for every handler of cli.Dispatch (switches of the dispatch* functions and the dispatch table), every constant conf.Cmd stored by pkg/api code reachable from it is one of the handler's own modes, or a mode whose row of the permission table demands at least as much (rows extracted from the table's initialisation), or a listed alias; (R5) = C25.R4 (an owner authenticated by an empty candidate skips the permission gate). NOT decided: which commands ought to need which right (the property defers to pdfcpu's table).",
 		Rules: []string{
 			"C26.R1 MPT: permission check before success in handlePermissions; user-only path ends in handlePermissions",
 			"C26.R2 TABLE: mask functions, revision boundary, mask constants, hasNeededPermissions",
+			"C26.R4 cross-layer: conf.Cmd stored by the API code of a handler is a mode the handler is dispatched for (or at least as strict)",
+			"C26.R5 = C25.R4",
 			"C26.R3 MPT: conf.Cmd is set on every path before the document is read",
 		},
 		Assumptions: []string{"the perm table's classification of commands is pdfcpu's own policy"},
@@ -57,6 +62,12 @@ func runC25(c *Ctx) {
 	r.MinInst["C25.R1"] = 8
 	r.MinInst["C25.R2"] = 3
 	r.MinInst["C25.R3"] = 4
+	r.MinInst["C25.R4"] = 2
+	r.MinInst["C25.R5"] = 1
+	r.MinInst["C25.R6"] = 1
+	checkEmptyOwnerCandidate(c, "C25.R4")
+	checkOwnerKeySymmetry(c)
+	checkNoDroppedErrors(c)
 	for _, v := range c25Validators {
 		c25Compares[v] = true
 	}
@@ -442,4 +453,209 @@ func boolFromCompare(v ssa.Value, at *ssa.Return, depth int, seen map[ssa.Value]
 		return "computed comparison " + x.String()
 	}
 	return fmt.Sprintf("unrecognised origin %T", v)
+}
+
+// ---------------- round 2 of seeding: C25.R4 / R5 / R6 ----------------
+
+// checkEmptyOwnerCandidate (C25.R4, also run as C26.R5): the AES-256 owner validators refuse an empty candidate before any
+// hashing: `len(ctx.OwnerPW) == 0` leads to `return false`, and the hash calls sit on the non-empty edge. Without it a caller
+// who supplied only the user password is authenticated as owner of a document whose owner password is the empty string, and
+// the permission gate is skipped.
+func checkEmptyOwnerCandidate(c *Ctx, rule string) {
+	p, r := c.P, c.R
+	for _, fid := range []string{"pkg/pdfcpu.validateOwnerPasswordAES256", "pkg/pdfcpu.validateOwnerPasswordAES256Rev6"} {
+		fn := p.Func(fid)
+		if fn == nil {
+			r.Bad(rule, fid, "anchor", "", "UNRESOLVED-ANCHOR")
+			continue
+		}
+		genE := map[Edge][]string{}
+		refuse := false
+		eachInstr(fn, func(_ *ssa.BasicBlock, _ int, i ssa.Instruction) {
+			b, ok := i.(*ssa.BinOp)
+			if !ok || (b.Op != token.EQL && b.Op != token.NEQ && b.Op != token.GTR) {
+				return
+			}
+			la := lenArgOf(b.X)
+			if la == nil || !strings.HasSuffix(fieldPath(la), "OwnerPW") {
+				return
+			}
+			if k, ok := constInt(b.Y); !ok || k != 0 {
+				return
+			}
+			emptyWhen := b.Op == token.EQL
+			for _, e := range condEdges(b, !emptyWhen) {
+				genE[e] = append(genE[e], "nonempty")
+			}
+			for _, e := range condEdges(b, emptyWhen) {
+				tgt := e.From.Succs[e.Succ]
+				if ret, ok := tgt.Instrs[len(tgt.Instrs)-1].(*ssa.Return); ok {
+					// the bool result is false: directly, or through the named result cell
+					for _, in := range tgt.Instrs {
+						if st, ok := in.(*ssa.Store); ok {
+							if cst, ok := st.Val.(*ssa.Const); ok && isBoolType(cst.Type()) && cst.Value != nil && cst.Value.String() == "false" {
+								refuse = true
+							}
+						}
+					}
+					if cst, ok := ret.Results[0].(*ssa.Const); ok && cst.Value != nil && cst.Value.String() == "false" {
+						refuse = true
+					}
+				}
+			}
+		})
+		ff := NewFactFlow(fn, nil, genE, nil, nil)
+		hashed := 0
+		bad := ""
+		eachInstr(fn, func(_ *ssa.BasicBlock, _ int, i ssa.Instruction) {
+			call, ok := i.(*ssa.Call)
+			if !ok {
+				return
+			}
+			_, ref := callRef(call)
+			if ref == "crypto/sha256.Sum256" || ref == "pkg/pdfcpu.hashRev6" {
+				hashed++
+				if !ff.Holds(i, "nonempty") {
+					bad = p.Pos(call.Pos())
+				}
+			}
+		})
+		pos := p.Pos(fn.Pos())
+		switch {
+		case hashed == 0:
+			r.Bad(rule, fid, "empty candidate", pos, "UNRESOLVED-ANCHOR: no hash computation found")
+		case !refuse || bad != "":
+			r.Bad(rule, fid, "empty candidate", pos, "an empty owner-password candidate is hashed and compared instead of being refused: with a document whose owner password is the empty string, a session that supplied only the user password is authenticated as owner and the permission bits are not enforced")
+		default:
+			r.OK(rule, fid, "empty candidate", pos, "len(ctx.OwnerPW) == 0 returns false; every hash computation is on the non-empty edge", true)
+		}
+	}
+}
+
+// checkOwnerKeySymmetry (C25.R5): the value the writer (o) and the validator (validateOwnerPassword) hand to key() as owner
+// password come from the same fields. A fallback applied on one side only (empty owner -> user password) makes the written /O
+// disagree with what validation derives: the document then opens with passwords it should refuse.
+func checkOwnerKeySymmetry(c *Ctx) {
+	p, r := c.P, c.R
+	sig := func(fid string) (string, string) {
+		fn := p.Func(fid)
+		if fn == nil {
+			return "", ""
+		}
+		out := ""
+		pos := ""
+		eachInstr(fn, func(_ *ssa.BasicBlock, _ int, i ssa.Instruction) {
+			call, ok := i.(*ssa.Call)
+			if !ok {
+				return
+			}
+			if _, ref := callRef(call); ref != "pkg/pdfcpu.key" {
+				return
+			}
+			pos = p.Pos(call.Pos())
+			var parts []string
+			for _, a := range call.Call.Args {
+				if b, ok := a.Type().Underlying().(*types.Basic); !ok || b.Kind() != types.String {
+					continue
+				}
+				var fields []string
+				for _, lf := range valueLeaves(a) {
+					fp := fieldPath(lf)
+					if k := strings.LastIndex(fp, "."); k >= 0 {
+						fp = fp[k+1:]
+					}
+					if fp == "" {
+						fp = "?"
+					}
+					fields = append(fields, fp)
+				}
+				sort.Strings(fields)
+				parts = append(parts, strings.Join(dedupStrings(fields), "|"))
+			}
+			out = strings.Join(parts, " , ")
+		})
+		return out, pos
+	}
+	ws, wp := sig("pkg/pdfcpu.o")
+	vs, _ := sig("pkg/pdfcpu.validateOwnerPassword")
+	switch {
+	case ws == "" || vs == "":
+		r.Bad("C25.R5", "pkg/pdfcpu.o", "key inputs", wp, "UNRESOLVED-ANCHOR: o() or validateOwnerPassword() no longer calls key()")
+	case ws != vs:
+		r.Bad("C25.R5", "pkg/pdfcpu.o", "key inputs", wp, "the writer derives the /O key from ("+ws+") but the validator from ("+vs+"): a fallback applied on one side only makes the stored /O authenticate a different password than the one that was set")
+	default:
+		r.OK("C25.R5", "pkg/pdfcpu.o", "key inputs", wp, "o() and validateOwnerPassword() hand the same fields to key(): ("+ws+")", true)
+	}
+}
+
+// checkNoDroppedErrors (C25.R6): in pkg/pdfcpu/crypto.go no error result is discarded (an Extract that nobody reads, or a tuple
+// whose error component is never extracted). The password preparation (precis profile) and the key derivation report
+// unusable input through errors; dropping one turns "rejected" into "empty".
+func checkNoDroppedErrors(c *Ctx) {
+	p, r := c.P, c.R
+	n, badN := 0, 0
+	for _, fn := range p.Funcs {
+		if !strings.HasSuffix(p.Fset.Position(fn.Pos()).Filename, "pkg/pdfcpu/crypto.go") {
+			continue
+		}
+		fid := FuncID(fn)
+		fn := fn
+		k := 0
+		eachInstr(fn, func(_ *ssa.BasicBlock, _ int, i ssa.Instruction) {
+			call, ok := i.(*ssa.Call)
+			if !ok {
+				return
+			}
+			tup, isTup := call.Type().(*types.Tuple)
+			errIdx := -1
+			if isTup {
+				for j := 0; j < tup.Len(); j++ {
+					if isErrorType(tup.At(j).Type()) {
+						errIdx = j
+					}
+				}
+			} else if isErrorType(call.Type()) {
+				errIdx = 0
+			}
+			if errIdx < 0 {
+				return
+			}
+			_, ref := callRef(call)
+			if ref == "" {
+				ref = "dynamic"
+			}
+			if c25ErrIgnorable[ref] != "" {
+				return
+			}
+			if call.Call.IsInvoke() && call.Call.Method.Name() == "Write" && strings.HasSuffix(call.Call.Value.Type().String(), "hash.Hash") {
+				return // hash.Hash.Write never returns an error (documented)
+			}
+			n++
+			k++
+			used := false
+			if !isTup {
+				used = call.Referrers() != nil && len(*call.Referrers()) > 0
+			} else {
+				for _, rf := range *call.Referrers() {
+					if ex, ok := rf.(*ssa.Extract); ok && ex.Index == errIdx && ex.Referrers() != nil && len(*ex.Referrers()) > 0 {
+						used = true
+					}
+				}
+			}
+			if !used {
+				badN++
+				r.Bad("C25.R6", fid, fmt.Sprintf("%s#%d error", ref, k), p.Pos(call.Pos()), "the error result of "+ref+" is discarded: in the password / key path a rejected input then continues as if it were empty or valid")
+			}
+		})
+	}
+	if badN == 0 {
+		r.OK("C25.R6", "pkg/pdfcpu/crypto.go", "errors", "", fmt.Sprintf("%d calls with an error result, none discarded", n), true)
+	}
+}
+
+// c25ErrIgnorable: writers whose error is documented as always nil.
+var c25ErrIgnorable = map[string]string{
+	"hash.Hash.Write":    "hash.Hash.Write never returns an error",
+	"bytes.Buffer.Write": "always nil", "bytes.Buffer.WriteByte": "always nil", "bytes.Buffer.WriteString": "always nil",
+	"crypto/rand.Read": "",
 }
